@@ -1,0 +1,184 @@
+//go:build verif
+
+// Constructive / read-only access for the /verif harness. Add-only: nothing in this file
+// is compiled without the `verif` build tag, and nothing here changes the behaviour of
+// the face system -- it only makes existing unexported pieces reachable from outside.
+
+package face
+
+import (
+	"io"
+	"strconv"
+	"sync"
+
+	defn "github.com/named-data/ndnd/fw/defn"
+	"github.com/named-data/ndnd/fw/dispatch"
+)
+
+// VerifTransport is an in-memory implementation of the unexported transport interface.
+// It never drops anything: every frame handed to sendFrame is copied and recorded, so
+// that the harness (not the transport) judges frame sizes against the MTU.
+type VerifTransport struct {
+	transportBase
+
+	mu     sync.Mutex
+	frames [][]byte
+	// queueSize is what GetSendQueueSize reports (the link service reads it to decide
+	// whether to mark congestion).
+	queueSize uint64
+	// reader, if set, is what runReceive reads a TLV stream from (through readTlvStream,
+	// exactly as the stream transports do); otherwise runReceive blocks until Close.
+	reader io.Reader
+	closed chan struct{}
+}
+
+// VerifMakeTransport makes a VerifTransport that is up (running).
+func VerifMakeTransport(
+	remoteURI *defn.URI, localURI *defn.URI, persistency Persistency,
+	scope defn.Scope, linkType defn.LinkType, mtu int,
+) *VerifTransport {
+	t := &VerifTransport{closed: make(chan struct{})}
+	t.makeTransportBase(remoteURI, localURI, persistency, scope, linkType, mtu)
+	t.running.Store(true)
+	return t
+}
+
+func (t *VerifTransport) String() string {
+	return "VerifTransport, FaceID=" + strconv.FormatUint(t.faceID, 10) +
+		", RemoteURI=" + t.remoteURI.String() + ", LocalURI=" + t.localURI.String()
+}
+
+// SetPersistency accepts every persistency.
+func (t *VerifTransport) SetPersistency(persistency Persistency) bool {
+	t.persistency = persistency
+	return true
+}
+
+// GetSendQueueSize returns the value set with VerifSetSendQueueSize (default 0).
+func (t *VerifTransport) GetSendQueueSize() uint64 {
+	t.mu.Lock()
+	defer t.mu.Unlock()
+	return t.queueSize
+}
+
+func (t *VerifTransport) sendFrame(frame []byte) {
+	c := make([]byte, len(frame))
+	copy(c, frame)
+	t.mu.Lock()
+	t.frames = append(t.frames, c)
+	t.nOutBytes += uint64(len(frame))
+	t.mu.Unlock()
+}
+
+func (t *VerifTransport) runReceive() {
+	if t.reader != nil {
+		_ = readTlvStream(t.reader, func(b []byte) {
+			t.nInBytes += uint64(len(b))
+			t.linkService.handleIncomingFrame(b)
+		}, nil)
+		t.Close()
+		return
+	}
+	<-t.closed
+}
+
+// Close marks the transport down and lets runReceive return.
+func (t *VerifTransport) Close() {
+	if t.running.Swap(false) {
+		close(t.closed)
+	}
+}
+
+// VerifSetSendQueueSize sets what GetSendQueueSize reports.
+func (t *VerifTransport) VerifSetSendQueueSize(n uint64) {
+	t.mu.Lock()
+	t.queueSize = n
+	t.mu.Unlock()
+}
+
+// VerifSetReader makes runReceive read a TLV stream from r.
+func (t *VerifTransport) VerifSetReader(r io.Reader) { t.reader = r }
+
+// VerifSetRunning sets the up/down state without closing.
+func (t *VerifTransport) VerifSetRunning(up bool) { t.running.Store(up) }
+
+// VerifSetScope sets the scope reported by the transport.
+func (t *VerifTransport) VerifSetScope(s defn.Scope) { t.scope = s }
+
+// VerifSetLinkType sets the link type reported by the transport.
+func (t *VerifTransport) VerifSetLinkType(l defn.LinkType) { t.linkType = l }
+
+// VerifSetURIs sets the URIs reported by the transport.
+func (t *VerifTransport) VerifSetURIs(remoteURI *defn.URI, localURI *defn.URI) {
+	t.remoteURI = remoteURI
+	t.localURI = localURI
+}
+
+// VerifFrames returns the frames recorded so far (not a copy of the frames themselves;
+// they are never written again).
+func (t *VerifTransport) VerifFrames() [][]byte {
+	t.mu.Lock()
+	defer t.mu.Unlock()
+	out := make([][]byte, len(t.frames))
+	copy(out, t.frames)
+	return out
+}
+
+// VerifTakeFrames returns the recorded frames and forgets them.
+func (t *VerifTransport) VerifTakeFrames() [][]byte {
+	t.mu.Lock()
+	defer t.mu.Unlock()
+	out := t.frames
+	t.frames = nil
+	return out
+}
+
+// VerifLinkService returns the link service attached to the transport.
+func (t *VerifTransport) VerifLinkService() LinkService { return t.linkService }
+
+// VerifSendPacket runs the (synchronous) send path of the link service: what runSend does
+// with every packet taken from the send queue.
+func VerifSendPacket(l *NDNLPLinkService, out dispatch.OutPkt) { sendPacket(l, out) }
+
+// VerifHandleIncomingFrame runs the (synchronous) receive path of the link service: what
+// every transport does with each frame it received.
+func (l *NDNLPLinkService) VerifHandleIncomingFrame(frame []byte) { l.handleIncomingFrame(frame) }
+
+// VerifPartialMessageStore reports the size of the reassembly state: number of partial
+// messages, total number of fragment slots, and bytes of fragments held.
+func (l *NDNLPLinkService) VerifPartialMessageStore() (entries int, slots int, bytes int) {
+	for _, frags := range l.partialMessageStore {
+		entries++
+		slots += len(frags)
+		for _, f := range frags {
+			bytes += len(f)
+		}
+	}
+	return
+}
+
+// VerifNextSequence returns the next fragment sequence number of the link service.
+func (l *NDNLPLinkService) VerifNextSequence() uint64 { return l.nextSequence }
+
+// VerifReadTlvStream is readTlvStream.
+func VerifReadTlvStream(reader io.Reader, onFrame func([]byte), ignoreError func(error) bool) error {
+	return readTlvStream(reader, onFrame, ignoreError)
+}
+
+// VerifResetFaceTable empties the face table (and the face dispatch map entries it
+// registered) and restarts face ids at 1, as at process start.
+func VerifResetFaceTable() {
+	FaceTable.faces.Range(func(k, _ interface{}) bool {
+		FaceTable.faces.Delete(k)
+		dispatch.RemoveFace(k.(uint64))
+		return true
+	})
+	FaceTable.nextFaceID.Store(1)
+}
+
+// VerifFaceTableLen returns the number of faces in the face table.
+func VerifFaceTableLen() int {
+	n := 0
+	FaceTable.faces.Range(func(_, _ interface{}) bool { n++; return true })
+	return n
+}
